@@ -2,8 +2,9 @@ import Tbx.Model.TopK
 import Tbx.Proofs.Sorting
 /-
 `top_k xs k = (sort xs).take k`, for any `select_nth_unstable` / `sort_unstable` that satisfy their
-contracts.  Invariant of the loop (seen = the items consumed so far, buf = the vector, th = threshold):
-  (a) |buf| < 2k,  (b) the k smallest of buf are the k smallest of seen,
+contracts.  The selection may run at any buffer length `limit ≥ k` (the Rust uses 2k, saturated at usize::MAX).
+Invariant of the loop (seen = the items consumed so far, buf = the vector, th = threshold):
+  (b) the k smallest of buf are the k smallest of seen,
   (c) if a threshold t is set, buf has at least k items and its k smallest are all ≤ t.
 -/
 namespace Tbx.TopK
@@ -58,19 +59,18 @@ theorem isort_append_of_le (a c : List Int) (h : ∀ x ∈ a, ∀ y ∈ c, x ≤
   · exact (isort_perm a).append (isort_perm c)
 
 structure LoopInv (k : Nat) (seen buf : List Int) (th : Option Int) : Prop where
-  small : buf.length < 2 * k
   same : (isort buf).take k = (isort seen).take k
   thr : ∀ t, th = some t → k ≤ buf.length ∧ ∀ y ∈ (isort buf).take k, y ≤ t
 
 /-- the selection step: keep the k smallest, remember the k-th smallest as threshold -/
-theorem LoopInv_select (S : Std) (hsel : SelectContract S.selectNth) (k : Nat) (hk : 0 < k)
+theorem LoopInv_select (S : Std) (hsel : SelectContract S.selectNth) (k limit : Nat) (hk : 0 < k) (hlim : k ≤ limit)
     (seen buf : List Int) (th : Option Int) (x : Int) (_hI : LoopInv k seen buf th)
-    (hfull : (buf ++ [x]).length = 2 * k)
+    (hfull : (buf ++ [x]).length = limit)
     (hpush : (isort (buf ++ [x])).take k = (isort (seen ++ [x])).take k) :
     LoopInv k (seen ++ [x]) ((S.selectNth (buf ++ [x]) (k - 1)).take k) (S.selectNth (buf ++ [x]) (k - 1))[k - 1]? := by
   obtain ⟨hperm, hc⟩ := hsel (buf ++ [x]) (k - 1) (by omega)
   generalize S.selectNth (buf ++ [x]) (k - 1) = b at hperm hc ⊢
-  have hblen : b.length = 2 * k := by rw [hperm.length_eq, hfull]
+  have hblen : b.length = limit := by rw [hperm.length_eq, hfull]
   have hm : ∃ m, b[k - 1]? = some m := ⟨b[k - 1]'(by omega), List.getElem?_eq_getElem (by omega)⟩
   obtain ⟨m, hm⟩ := hm
   obtain ⟨hlo, hhi⟩ := hc m hm
@@ -98,7 +98,7 @@ theorem LoopInv_select (S : Std) (hsel : SelectContract S.selectNth) (k : Nat) (
   have hsame : (isort (b.take k)).take k = (isort (seen ++ [x])).take k := by
     rw [← hpush, ← isort_congr hperm, hsplit, List.take_left' (by rw [length_isort, hlen])]
     exact List.take_of_length_le (by rw [length_isort, hlen]; exact Nat.le_refl _)
-  refine ⟨by omega, hsame, ?_⟩
+  refine ⟨hsame, ?_⟩
   intro t ht
   rw [hm] at ht; cases ht
   refine ⟨by omega, ?_⟩
@@ -106,9 +106,9 @@ theorem LoopInv_select (S : Std) (hsel : SelectContract S.selectNth) (k : Nat) (
   exact htk y (mem_isort.mp (List.mem_of_mem_take hy))
 
 
-theorem loop_spec (S : Std) (hsel : SelectContract S.selectNth) (k : Nat) (hk : 0 < k)
+theorem loop_spec (S : Std) (hsel : SelectContract S.selectNth) (k limit : Nat) (hk : 0 < k) (hlim : k ≤ limit)
     (xs seen buf : List Int) (th : Option Int) (hI : LoopInv k seen buf th) :
-    (isort (loop S k xs buf th)).take k = (isort (seen ++ xs)).take k := by
+    (isort (loop S k limit xs buf th)).take k = (isort (seen ++ xs)).take k := by
   induction xs generalizing seen buf th with
   | nil => simpa [loop] using hI.same
   | cons x xs ih =>
@@ -126,7 +126,7 @@ theorem loop_spec (S : Std) (hsel : SelectContract S.selectNth) (k : Nat) (hk : 
         simp only [hskip, decide_true, if_true]
         rw [← hth]
         apply ih
-        refine ⟨hI.small, ?_, hI.thr⟩
+        refine ⟨?_, hI.thr⟩
         rw [isort_snoc, hI.same]
         symm
         apply take_ins_of_le
@@ -139,14 +139,13 @@ theorem loop_spec (S : Std) (hsel : SelectContract S.selectNth) (k : Nat) (hk : 
           rw [hI.same, List.length_take] at h1
           omega
       · simp only [hskip, decide_false, Bool.false_eq_true, if_false]
-        by_cases hfull : (buf ++ [x]).length = 2 * k
+        by_cases hfull : (buf ++ [x]).length = limit
         · simp only [hfull, if_true]
-          exact ih _ _ _ (LoopInv_select S hsel k hk seen buf _ x hI hfull hpush)
+          exact ih _ _ _ (LoopInv_select S hsel k limit hk hlim seen buf _ x hI hfull hpush)
         · simp only [hfull, if_false]
           rw [← hth]
           apply ih
-          refine ⟨?_, hpush, ?_⟩
-          · have := hI.small; simp at hfull ⊢; omega
+          refine ⟨hpush, ?_⟩
           · intro t' ht'
             rw [hth] at ht'; cases ht'
             refine ⟨by simp; omega, ?_⟩
@@ -158,25 +157,28 @@ theorem loop_spec (S : Std) (hsel : SelectContract S.selectNth) (k : Nat) (hk : 
             · exact hle y hy'
     | none =>
       simp only [Bool.false_eq_true, if_false]
-      by_cases hfull : (buf ++ [x]).length = 2 * k
+      by_cases hfull : (buf ++ [x]).length = limit
       · simp only [hfull, if_true]
-        exact ih _ _ _ (LoopInv_select S hsel k hk seen buf _ x hI hfull hpush)
+        exact ih _ _ _ (LoopInv_select S hsel k limit hk hlim seen buf _ x hI hfull hpush)
       · simp only [hfull, if_false]
         apply ih
-        refine ⟨?_, hpush, ?_⟩
-        · have := hI.small; simp at hfull ⊢; omega
+        refine ⟨hpush, ?_⟩
         · intro t' ht'; cases ht'
-/-- `top_k` returns the k smallest items in ascending order -/
+theorem le_limitOf (k : Nat) (hk : k ≤ usizeMax) : k ≤ limitOf k := by
+  unfold limitOf; split <;> omega
+
+/-- `top_k` returns the k smallest items in ascending order, for every k that fits a usize -/
 theorem topK_eq (S : Std) (hsel : SelectContract S.selectNth) (hsort : SortContract S.sortUnstable)
-    (xs : List Int) (k : Nat) : topK S xs k = (isort xs).take k := by
+    (xs : List Int) (k : Nat) (hku : k ≤ usizeMax) : topK S xs k = (isort xs).take k := by
   unfold topK
   by_cases hk : k = 0
   · simp [hk]
   · rw [if_neg hk]
-    have hs : S.sortUnstable (loop S k xs [] none) = isort (loop S k xs [] none) := by
-      obtain ⟨h1, h2⟩ := hsort (loop S k xs [] none)
+    have hs : S.sortUnstable (loop S k (limitOf k) xs [] none) = isort (loop S k (limitOf k) xs [] none) := by
+      obtain ⟨h1, h2⟩ := hsort (loop S k (limitOf k) xs [] none)
       exact (eq_isort_iff _ _).mpr ⟨h1, h2⟩
-    rw [hs, loop_spec S hsel k (by omega) xs [] [] none ⟨by simp; omega, rfl, fun t ht => by cases ht⟩]
+    rw [hs, loop_spec S hsel k (limitOf k) (by omega) (le_limitOf k hku) xs [] [] none
+      ⟨rfl, fun t ht => by cases ht⟩]
     simp
 
 end Tbx.TopK
